@@ -412,14 +412,32 @@ def _divide(a, b):
     if a.kind == "s" or b.kind == "s":
         raise Unmodelled("arithmetic on strings")
     dc, kf = C.taint(a, b)
+    x, y = C.real(a), C.real(b)
+    null = zor(a.null, b.null)
+    # accepted difference: integer / integer (SQL integer division)
+    dc = zor(dc, TRUE if (C.is_intlike(a) and C.is_intlike(b)) else FALSE)
+    src = kf_src("division_by_zero", zand(znot(null), y == 0, x != 0))
+    if z3.is_false(src):
+        dc = zor(dc, y == 0)  # finding not listed for this check: division by zero (inf / nan) stays outside the comparison
+    else:
+        # known finding division_by_zero: x / 0 is +/-inf here (NULL in SQLite); 0 / 0 is NaN, which counts as missing on both sides
+        kf = zor(kf, src)
+        null = zor(null, zand(y == 0, x == 0))
+    return Cell(null, x / z3.If(y == 0, z3.RealVal(1), y), "f", dc, kf)
+
+
+def _floor_divide(a, b):
+    """// : floor of the quotient (numpy.floor_divide); NOT one of the accepted differences.  Division by zero (inf / nan) is outside the value model."""
+    if a.kind == "s" or b.kind == "s":
+        raise Unmodelled("arithmetic on strings")
+    dc, kf = C.taint(a, b)
     y = C.real(b)
-    # accepted difference: integer / integer (SQL integer division); division by zero is outside every claim
-    dc = zor(dc, y == 0, TRUE if (C.is_intlike(a) and C.is_intlike(b)) else FALSE)
-    return Cell(zor(a.null, b.null), C.real(a) / z3.If(y == 0, z3.RealVal(1), y), "f", dc, kf)
+    q = C.real(a) / z3.If(y == 0, z3.RealVal(1), y)
+    return Cell(zor(a.null, b.null), z3.ToReal(z3.ToInt(q)), "f", zor(dc, y == 0), kf)
 
 
 def _dc_binary(a, b):
-    """%, mod, remainder, //: destination conventions (accepted difference) -- value never compared"""
+    """%, mod, remainder: destination conventions (accepted difference) -- value never compared"""
     dc, kf = C.taint(a, b)
     k = "f" if "f" in (a.kind, b.kind) else "i"
     return Cell(zor(a.null, b.null), z3.RealVal(0) if k == "f" else z3.IntVal(0), k, TRUE, kf)
@@ -592,7 +610,7 @@ np_add = functools.partial(_elementwise, _arith("+"))
 np_subtract = functools.partial(_elementwise, _arith("-"))
 np_multiply = functools.partial(_elementwise, _arith("*"))
 np_divide = functools.partial(_elementwise, _divide)
-np_floor_divide = functools.partial(_elementwise, _dc_binary)
+np_floor_divide = functools.partial(_elementwise, _floor_divide)
 np_mod = functools.partial(_elementwise, _dc_binary)
 np_power = functools.partial(_elementwise, _power)
 np_negative = functools.partial(_elementwise, _unary_num(_neg))
